@@ -284,6 +284,13 @@ class Rewriter:
             text = text[:m.start()] + self.pad(repl, whole) + text[end:]
             pos = m.start() + len(repl)
 
+    def unwrap_or_panic(self, text):
+        """R7: `.unwrap_or_else(|e| panic!(..))` (already `vx_abort()` here) is an abort on Err/None -> .vx_expect()"""
+        text, n = re.subn(r"\.unwrap_or_else\(\|\w+\|\s*\{?\s*vx_abort\(\)\s*\}?\s*\)", ".vx_expect()", text)
+        if n:
+            self.count("R7 .unwrap_or_else(|e| panic!(..)) -> .vx_expect() (abort on Err/None)", n)
+        return text
+
     def unwraps(self, text):
         """R7: .unwrap() -> .vx_expect() (abort semantics) unless the function is `noabort`"""
         text, n = re.subn(r"\.\s*unwrap\s*\(\s*\)", ".vx_expect()", text)
@@ -727,6 +734,7 @@ class Unit:
         if not opts.get("noabort"):
             body = rw.methods(body)
             body = rw.unwraps(body)
+            body = rw.unwrap_or_panic(body)
         else:
             body, n_exp = re.subn(r"\.\s*expect\s*\(\s*\"[^\"]*\"\s*\)", ".unwrap()", body)
             if n_exp:
